@@ -9,6 +9,7 @@ import z3
 from . import ops, extract
 from . import keyed as _keyed
 from .ops import exc, is_number
+from .values import FrozenSetE  # noqa: E402
 from .values import (
     Ref, ListE, DequeE, SetE, NumSetE, DictE, ObjE, NdE, SymListE, FuncVal, BoundMethod, ClassVal, BuiltinClass,
     ModuleVal, Builtin, ExcVal, Exc, Opaque, SliceVal, SuperVal, Unknown, Unsupported, EngineError,
@@ -1273,6 +1274,14 @@ def set_method(I, st, ref, name):
     def S(st):
         return st.get(ref).items
 
+    def same_type(st, items):
+        # s.union(..) / s.copy() ... of a frozenset is a frozenset, of a set a set
+        return st.alloc(FrozenSetE(items) if st.get(ref).frozen else SetE(items))
+
+    if st.get(ref).frozen and name in ("add", "discard", "remove", "update", "difference_update", "intersection_update",
+                                       "symmetric_difference_update", "pop", "clear"):
+        raise Unsupported("frozenset has no method %s (AttributeError in Python)" % name)
+
     def add(I, st, a, k):
         if (is_z3(a[0]) and _plain_number(a[0])) or st.get(ref).kind == "numset":
             yield from numset_add(I, st, ref, a[0])
@@ -1310,21 +1319,21 @@ def set_method(I, st, ref, name):
             for x in I.iterate(src, st):
                 if x not in out:
                     out.append(x)
-        yield st, st.alloc(SetE(out))
+        yield st, same_type(st, out)
 
     def intersection(I, st, a, k):
         out = list(S(st))
         for src in a:
             other = I.iterate(src, st)
             out = [x for x in out if x in other]
-        yield st, st.alloc(SetE(out))
+        yield st, same_type(st, out)
 
     def difference(I, st, a, k):
         out = list(S(st))
         for src in a:
             other = I.iterate(src, st)
             out = [x for x in out if x not in other]
-        yield st, st.alloc(SetE(out))
+        yield st, same_type(st, out)
 
     def difference_update(I, st, a, k):
         # s.difference_update(*others): remove every element found in any of the others (in place, returns None)
@@ -1338,7 +1347,7 @@ def set_method(I, st, ref, name):
         yield st, all(x in other for x in S(st))
 
     def copy(I, st, a, k):
-        yield st, st.alloc(SetE(S(st)))
+        yield st, same_type(st, S(st))
 
     def symmetric_difference(I, st, a, k):
         # s.symmetric_difference(other): elements in exactly one of the two (exactly one argument; concrete keys only)
@@ -1352,7 +1361,7 @@ def set_method(I, st, ref, name):
                 other.append(x)
         if any(is_z3(x) for x in mine + other) or st.get(ref).kind == "numset":
             raise Unsupported("set.symmetric_difference over symbolic elements")
-        yield st, st.alloc(SetE([x for x in mine if x not in other] + [x for x in other if x not in mine]))
+        yield st, same_type(st, [x for x in mine if x not in other] + [x for x in other if x not in mine])
 
     tbl = dict(add=add, discard=discard, remove=remove, update=update, union=union, intersection=intersection,
                difference=difference, difference_update=difference_update, issubset=issubset, copy=copy,
@@ -1645,7 +1654,8 @@ def call_builtin_class(I, st, c, args, kwargs):
             I.hashable(x)
             if x not in items:
                 items.append(x)
-        yield st, st.alloc(SetE(items))
+        # frozenset(...) is immutable and is not a `set` (values.FrozenSetE)
+        yield st, st.alloc(FrozenSetE(items) if n == "frozenset" else SetE(items))
     elif n == "dict":
         d = {}
         if args:
@@ -1683,6 +1693,8 @@ def type_of(I, st, v):
         e = st.get(v)
         if e.kind == "obj":
             return e.cls
+        if e.kind == "set" and e.frozen:
+            return BuiltinClass("frozenset", frozenset)
         return BuiltinClass({"list": "list", "dict": "dict", "set": "set", "nd": "ndarray", "deque": "deque", "symlist": "list"}[e.kind])
     if isinstance(v, HObj):
         return v.cls
@@ -2454,8 +2466,9 @@ def isinstance_model(I, st, v, cls):
             if isinstance(cls, BuiltinClass) and cls.name == "dict" and "__dictdata__" in e.attrs:
                 return True
             return isinstance(cls, BuiltinClass) and cls.name == "object"
-        kind = {"list": ("list",), "deque": ("deque",), "dict": ("dict",), "set": ("set", "frozenset"), "nd": ("ndarray",),
-                "symlist": ("list",)}[e.kind]
+        # a frozenset is not a set and a set is not a frozenset (neither class derives from the other)
+        kind = {"list": ("list",), "deque": ("deque",), "dict": ("dict",), "set": (("frozenset",) if getattr(e, "frozen", False) else ("set",)),
+                "nd": ("ndarray",), "numset": ("set",), "symlist": ("list",)}[e.kind]
         return isinstance(cls, BuiltinClass) and (cls.name in kind or cls.name == "object")
     if isinstance(v, HObj):
         if isinstance(cls, ClassVal) and v.cls is not None:
@@ -2493,7 +2506,7 @@ def isinstance_model(I, st, v, cls):
     if isinstance(v, ExcVal):
         return I.is_subclass(v.cls, cls)
     if isinstance(v, (frozenset,)):
-        return n in ("frozenset", "set")
+        return n == "frozenset"  # frozenset does not derive from set
     from .symex import FrozenList, FrozenDict, FrozenNd
 
     if isinstance(v, FrozenList):
